@@ -1,0 +1,12 @@
+//go:build verif
+
+// Contracts for /verif/govc (comment-only; see /verif/DESIGN.md section 3.2).
+package gtids
+
+//@ func mysql/gtids.IsSlaveBehindOrEqual
+//@   requires nonnil [safety]: masterGtidSet != nil
+//@   ensures C13.behind [C13,C11,C16,C04]: result == sup(masterGtidSet, slaveGtidSet)
+
+//@ func mysql/gtids.IsSlaveAhead
+//@   requires nonnil [safety]: masterGtidSet != nil
+//@   ensures C13.ahead [C13,C11,C16,C04]: result == !sup(masterGtidSet, slaveGtidSet)
